@@ -327,6 +327,43 @@ def axioms_of(module: str, theorems: List[str]) -> Dict[str, List[str]]:
     return res
 
 
+def local_import_closure(modules: List[str]) -> List[str]:
+    """the project's own modules (Pacti.*) that `modules` import, transitively, themselves included"""
+    import re
+
+    seen: List[str] = []
+    todo = list(modules)
+    while todo:
+        m = todo.pop()
+        if m in seen:
+            continue
+        path = os.path.join(LEAN_DIR, *m.split(".")) + ".lean"
+        if not os.path.exists(path):
+            continue
+        seen.append(m)
+        for im in re.findall(r"^import\s+(Pacti(?:\.[A-Za-z0-9_]+)*)\s*$", open(path).read(), flags=re.M):
+            todo.append(im)
+    return sorted(seen)
+
+
+def leanchecker(modules: List[str], nproc: int = 6) -> Tuple[bool, str, List[str]]:
+    """replay every declaration of the project's modules behind `modules` through Lean's independent re-checker
+    (`leanchecker`, the kernel only, from the compiled .olean files); imports from the toolchain / Mathlib are taken as
+    compiled."""
+    import concurrent.futures as cf
+
+    mods = local_import_closure(modules)
+    chunks = [mods[i::nproc] for i in range(nproc) if mods[i::nproc]]
+
+    def one(ch):
+        return sh(["lake", "env", "leanchecker"] + ch, cwd=LEAN_DIR, timeout=3000)
+
+    with cf.ThreadPoolExecutor(len(chunks) or 1) as ex:
+        res = list(ex.map(one, chunks))
+    bad = [out[-1500:] for rc, out in res if rc != 0]
+    return not bad, "\n".join(bad), mods
+
+
 # ------------------------------------------------------------------------------------------------
 # evidence, findings, replays
 
